@@ -499,15 +499,16 @@ Proof.
     rewrite Hu0 in *.
     assert (Hlr : lf rest = []) by (destruct (lf rest); [reflexivity|destruct i; try discriminate Hli; contradiction]).
     rewrite Hlr in L5.
-    unfold exec1 in *. cbn [self_of] in *. rewrite Hg0 in *.
     destruct i; try discriminate Hli.
     + (* IDoKill *)
+      unfold exec1 in *. cbn [self_of] in *. rewrite Hg0 in *.
       cbn [fst snd] in *. rewrite Hg0 in Hy. inversion Hy; subst y.
       unfold linv, life_ok. cbn [upd_pend a_state a_zombie a_children a_pend x0].
       rewrite <- app_assoc, lf_app, uzc_app.
       destruct (a_children x); cbn [app lf uzc filter life is_unzombie length plus]; fold (lf rest); fold (uzc rest); rewrite Hlr;
         repeat split; auto.
     + (* IOnKilled *)
+      unfold exec1 in *. cbn [self_of] in *. rewrite Hg0 in *.
       cbn [a_zombie x0 upd_pend] in *. destruct (a_zombie x) eqn:Hz.
       * cbn [fst snd] in *. rewrite Hg0 in Hy. inversion Hy; subst y.
         unfold linv, life_ok. cbn [upd_pend a_state a_zombie a_children a_pend x0 app lf uzc filter life is_unzombie length].
@@ -524,6 +525,7 @@ Proof.
            unfold linv, life_ok. cbn [upd_pend a_state a_zombie a_children a_pend app lf uzc filter life is_unzombie length].
            fold (lf rest); fold (uzc rest). rewrite Hlr, Hs, Hzz, Hz. repeat split; auto; try discriminate.
     + (* ICheckMark *)
+      unfold exec1 in *. cbn [self_of] in *. rewrite Hg0 in *.
       cbn [a_children a_state x0 upd_pend] in *.
       destruct (a_children x) eqn:Hch.
       * destruct (a_state x) eqn:Hst.
@@ -541,6 +543,7 @@ Proof.
         unfold linv, life_ok. cbn [upd_pend a_state a_zombie a_children a_pend x0 app]. rewrite Hlr, Hch. repeat split; auto;
         try (intros Hk; rewrite (L2 Hk) in Hch; discriminate).
     + (* ICleanup *)
+      unfold exec1 in *. cbn [self_of] in *. rewrite Hg0 in *.
       cbn [fst snd] in *. assert (Hyx : y = x0) by (unfold get in *; cbn [actors set_subs set_reg] in Hy; rewrite Hg0 in Hy; inversion Hy; reflexivity).
       subst y. destruct L5 as [Hk Hzu].
       unfold linv, life_ok. cbn [upd_pend a_state a_zombie a_children a_pend x0 a_watchers a_parent].
@@ -549,27 +552,363 @@ Proof.
         rewrite Hlr; repeat split; auto.
     + (* IRestartFinish *)
       destruct L5 as (Hk & Hzf & Hu).
-      cbn [a_hooks x0 upd_pend] in *.
-      destruct (a_hooks x) as [|[[h1 h2] h3] hs].
-      * cbn [fst snd] in *. rewrite get_set_same in Hy by (unfold s0; cbn; rewrite upd_length; exact Hl). inversion Hy; subst y.
-        unfold linv, life_ok. destruct (sp_provider (a_spec x0));
-        cbn [upd_pend set_mb set_state set_restarting set_hooks set_modes set_inst upd_local a_state a_zombie a_children a_pend x0 app lf uzc filter life is_unzombie length];
-        fold (lf rest); fold (uzc rest); rewrite Hlr, Hzf, Hu; repeat split; auto; try discriminate; lia.
-      * destruct (h2 && h3); cbn [fst snd] in *;
-          rewrite get_set_same in Hy by (unfold s0; cbn; rewrite upd_length; exact Hl); inversion Hy; subst y;
-          unfold linv, life_ok; destruct (sp_provider (a_spec x0));
-          cbn [upd_pend set_mb set_state set_restarting set_hooks set_modes set_inst set_zombie upd_local a_state a_zombie a_children a_pend x0 app lf uzc filter life is_unzombie length];
-          fold (lf rest); fold (uzc rest); rewrite ?Hlr, ?Hzf, ?Hu, ?Hk; repeat split; auto; try discriminate; try lia.
+      destruct (restart_ok x0) eqn:Hok.
+      * destruct (exec1_restart_finish_ok s0 (TA a) [] x0 Hg0 Hok) as (y1 & E & Hs1 & _ & Hz1 & _ & _ & _ & _ & _ & _ & _).
+        rewrite E in *. cbn [fst snd self_of] in *.
+        rewrite get_set_same in Hy by (unfold s0; cbn; rewrite upd_length; exact Hl). inversion Hy; subst y1.
+        unfold linv, life_ok. cbn [upd_pend a_state a_zombie a_children a_pend app lf uzc filter life is_unzombie length].
+        fold (lf rest); fold (uzc rest). rewrite Hlr, Hs1, Hz1, Hu. cbn [a_zombie x0 upd_pend]. rewrite Hzf.
+        repeat split; auto; try discriminate; lia.
+      * destruct (exec1_restart_finish_fail s0 (TA a) [] x0 Hg0 Hok) as (y1 & E & Hz1 & Hs1 & _).
+        assert (Hc1 : a_children y1 = a_children x0).
+        { unfold exec1 in E. cbn [self_of] in E. rewrite Hg0 in E. unfold restart_ok in Hok.
+          destruct (a_hooks x0) as [|[[h1 h2] h3] hs]; [discriminate Hok|]. rewrite Hok in E.
+          injection E as E1. apply (f_equal (fun l => nth_error l a)) in E1.
+          rewrite !nth_upd_eq in E1 by (rewrite upd_length; exact Hl). inversion E1.
+          destruct (sp_provider (a_spec x)); reflexivity. }
+        rewrite E in *. cbn [fst snd self_of] in *.
+        rewrite get_set_same in Hy by (unfold s0; cbn; rewrite upd_length; exact Hl). inversion Hy; subst y1.
+        unfold linv, life_ok. cbn [upd_pend a_state a_zombie a_children a_pend app lf uzc filter life is_unzombie length].
+        fold (lf rest); fold (uzc rest). rewrite Hlr, Hs1, Hz1, Hu, Hc1. cbn [a_state a_children x0 upd_pend]. rewrite Hk.
+        repeat split; auto; try discriminate; try lia.
   - (* IUnzombie *)
     destruct Hinv as (L1 & L2 & L3 & L4 & L5). unfold life_ok in L5. rewrite Hp in L3, L4, L5.
     assert (Hu1 : uzc (IUnzombie :: rest) = S (uzc rest)) by reflexivity. rewrite Hu1 in *.
     assert (Hur : uzc rest = 0) by lia.
     unfold exec1 in *. cbn [self_of] in *. rewrite Hg0 in *. cbn [fst snd] in *.
     rewrite get_set_same in Hy by (unfold s0; cbn; rewrite upd_length; exact Hl). inversion Hy; subst y.
-    rewrite (lf_cons_plain _ _ eq_refl) in L5.
+    rewrite (lf_cons_plain IUnzombie rest eq_refl) in L5.
     unfold linv, life_ok. cbn [upd_pend set_zombie upd_local a_state a_zombie a_children a_pend x0 app]. rewrite Hur.
     repeat split; auto; try discriminate; try lia.
-    destruct (lf rest) as [|j [|j2 l2]]; auto. destruct j; auto; try (destruct L5; discriminate); try discriminate.
-    + destruct L5 as [Hk _]. split; [exact Hk|discriminate].
-    + destruct L5 as (_ & _ & E). discriminate.
+    destruct (lf rest) as [|j [|j2 l2]]; auto. destruct j; auto; try (destruct L5; discriminate); try discriminate;
+      try (destruct L5 as [Hk _]; split; [exact Hk|discriminate]); try (destruct L5 as (_ & _ & E); discriminate).
+Qed.
+
+Lemma linv_lc x y :
+  a_state y = a_state x -> a_zombie y = a_zombie x -> (a_state x = Killed -> a_children y = a_children x) ->
+  a_pend y = a_pend x -> linv x -> linv y.
+Proof.
+  unfold linv, life_ok. intros Hs Hz Hc Hp (L1 & L2 & L3 & L4 & L5). rewrite Hs, Hz, Hp.
+  repeat split; auto. intros Hk. rewrite (Hc Hk). auto.
+Qed.
+
+Lemma ext_instr_plain i : ext_instr i = true -> plain i = true.
+Proof. destruct i; try discriminate; reflexivity. Qed.
+
+(** replacing a plain head of thread t's list after a change that only touched queues / caches / flags *)
+Lemma linv_set_pend_TA s1 a x y1 i rest pre :
+  get s1 a = Some y1 -> a_pend x = i :: rest -> plain i = true -> lf pre = [] -> uzc pre = 0 ->
+  a_state y1 = a_state x -> a_zombie y1 = a_zombie x -> a_children y1 = a_children x ->
+  linv x -> exists x', get (set_pend s1 (TA a) (pre ++ rest)) a = Some x' /\ linv x'.
+Proof.
+  intros Hg1 Hp Hpl Hf Hu Hs Hz Hc Hinv. rewrite (set_pend_TA _ _ _ _ Hg1).
+  eexists. split; [apply (get_set_same' _ _ _ _ Hg1)|].
+  eapply (linv_plain_step x _ i pre rest Hp Hpl Hf Hu); [exact Hs|exact Hz|intros _; exact Hc|reflexivity|exact Hinv].
+Qed.
+
+Definition LI (s : state) : Prop := forall a x, get s a = Some x -> linv x.
+
+Lemma lsame_get_fields x y : lsame x y -> a_state y = a_state x /\ a_zombie y = a_zombie x /\ a_children y = a_children x /\ a_pend y = a_pend x.
+Proof. intros ->. cbn. auto. Qed.
+
+(** a change of the table that keeps every record up to queues, cache, flags and consumer position *)
+Definition soft (x y : actor) : Prop :=
+  a_state y = a_state x /\ a_zombie y = a_zombie x /\ a_children y = a_children x /\ a_pend y = a_pend x /\
+  a_path y = a_path x /\ a_parent y = a_parent x /\ a_restarting y = a_restarting x.
+Lemma soft_refl x : soft x x. Proof. repeat split. Qed.
+Lemma soft_trans x y z : soft x y -> soft y z -> soft x z.
+Proof. unfold soft. intros (A1 & A2 & A3 & A4 & A5 & A6 & A7) (B1 & B2 & B3 & B4 & B5 & B6 & B7). repeat split; congruence. Qed.
+Lemma soft_lsame x y : lsame x y -> soft x y. Proof. intros ->. repeat split. Qed.
+Lemma linv_soft x y : soft x y -> linv x -> linv y.
+Proof. intros (A & B & C & D & _). apply linv_lc; auto. Qed.
+
+Definition softT (s s' : state) : Prop := table_rel soft (fun _ => False) s s'.
+Lemma softT_refl s : softT s s. Proof. apply table_rel_refl, soft_refl. Qed.
+Lemma softT_trans a b c : softT a b -> softT b c -> softT a c. Proof. apply table_rel_trans, soft_trans. Qed.
+Lemma softT_same s s' : actors s' = actors s -> softT s s'. Proof. apply table_rel_same_actors, soft_refl. Qed.
+Lemma softT_set_actor s a x y : get s a = Some x -> soft x y -> softT s (set_actor s a y).
+Proof. intros Hg H. eapply table_rel_set_actor; [exact soft_refl|exact Hg|exact H]. Qed.
+Lemma softT_with_actor s a f : (forall x, soft x (f x)) -> softT s (with_actor s a f).
+Proof. intros H. apply table_rel_with_actor; [exact soft_refl|right; exact H]. Qed.
+Lemma softT_push_mb s a e : softT s (push_mb s a e).
+Proof. unfold push_mb. apply softT_with_actor. intros x. repeat split. Qed.
+Lemma softT_resolve s r : softT s (snd (resolve s r)).
+Proof.
+  destruct (resolve_shape s r) as [H|[H|(a & x & y & _ & Hg & _ & _ & H & _)]]; rewrite H;
+    [apply softT_refl|apply softT_same; reflexivity|]. eapply softT_set_actor; [exact Hg|repeat split].
+Qed.
+Lemma softT_get s s' b x : softT s s' -> get s b = Some x -> exists y, get s' b = Some y /\ soft x y.
+Proof. intros H Hg. apply (H b x Hg). tauto. Qed.
+
+(** the head of the thread's list is plain and is replaced by plain instructions, after a soft change *)
+Lemma linv_thread_plain s s1 t b x x' i rest pre :
+  wf s -> LI s -> softT s s1 -> pend_of s t = i :: rest -> plain i = true -> lf pre = [] -> uzc pre = 0 ->
+  get s b = Some x -> get (set_pend s1 t (pre ++ rest)) b = Some x' -> linv x'.
+Proof.
+  intros W I Hs Hp Hpl Hf Hu Hg Hg'. destruct (softT_get _ _ _ _ Hs Hg) as (y1 & Hg1 & Hsoft).
+  destruct t as [a|j].
+  - destruct (Nat.eq_dec a b) as [->|Hne].
+    + destruct (pend_of_TA_cons _ _ _ _ Hp) as (x0 & Hg0 & Hpx). rewrite Hg in Hg0. inversion Hg0; subst x0.
+      destruct Hsoft as (A & B & C & D & _).
+      destruct (linv_set_pend_TA s1 b x y1 i rest pre Hg1 Hpx Hpl Hf Hu A B C (I _ _ Hg)) as (x'' & Hx'' & Hl). congruence.
+    + assert (E : get (set_pend s1 (TA a) (pre ++ rest)) b = get s1 b).
+      { cbn [set_pend]. unfold with_actor. destruct (get s1 a); [apply get_set_other; exact Hne|reflexivity]. }
+      rewrite E in Hg'. assert (x' = y1) by congruence; subst. eapply linv_soft; [exact Hsoft|apply (I _ _ Hg)].
+  - assert (E : get (set_pend s1 (TX j) (pre ++ rest)) b = get s1 b) by (unfold get; rewrite set_pend_TX_actors; reflexivity).
+    rewrite E in Hg'. assert (x' = y1) by congruence; subst. eapply linv_soft; [exact Hsoft|apply (I _ _ Hg)].
+Qed.
+
+Lemma LI_softT s s' b x x' : LI s -> softT s s' -> get s b = Some x -> get s' b = Some x' -> linv x'.
+Proof.
+  intros I Hs Hg Hg'. destruct (softT_get _ _ _ _ Hs Hg) as (y & Hy & Hsoft). assert (x' = y) by congruence; subst.
+  eapply linv_soft; [exact Hsoft|apply (I _ _ Hg)].
+Qed.
+
+Lemma softT_set_mb s a x sq uq pa co cu : get s a = Some x -> softT s (set_actor s a (set_mb x sq uq pa co cu)).
+Proof. intros Hg. eapply softT_set_actor; [exact Hg|repeat split]. Qed.
+
+Theorem LI_mstep s m : wf s -> LI s -> LI (mstep s m).
+Proof.
+  intros W I b x' Hg'.
+  destruct (get s b) as [x|] eqn:Hg; [|apply linv_new; eapply mstep_new; eauto].
+  destruct m; cbn [mstep step] in Hg'.
+  - (* MSysPop *)
+    destruct (get s a) as [xa|] eqn:Hga; [|eapply LI_softT; [exact I|apply softT_refl|exact Hg|exact Hg']].
+    destruct (a_cons xa), (a_sq xa);
+      try (eapply LI_softT; [exact I|apply softT_same; reflexivity|exact Hg|exact Hg']);
+      (eapply LI_softT; [exact I|apply softT_set_mb; exact Hga|exact Hg|exact Hg']).
+  - destruct (get s a) as [xa|] eqn:Hga; [|eapply LI_softT; [exact I|apply softT_refl|exact Hg|exact Hg']].
+    destruct (a_cons xa);
+      try (eapply LI_softT; [exact I|apply softT_same; reflexivity|exact Hg|exact Hg']);
+      (eapply LI_softT; [exact I|apply softT_set_mb; exact Hga|exact Hg|exact Hg']).
+  - destruct (get s a) as [xa|] eqn:Hga; [|eapply LI_softT; [exact I|apply softT_refl|exact Hg|exact Hg']].
+    destruct (a_cons xa), (a_uq xa);
+      try (eapply LI_softT; [exact I|apply softT_same; reflexivity|exact Hg|exact Hg']);
+      (eapply LI_softT; [exact I|apply softT_set_mb; exact Hga|exact Hg|exact Hg']).
+  - (* MHandle *)
+    destruct (get s a) as [xa|] eqn:Hga; [|eapply LI_softT; [exact I|apply softT_refl|exact Hg|exact Hg']].
+    destruct (a_cons xa) eqn:Hc; try (eapply LI_softT; [exact I|apply softT_same; reflexivity|exact Hg|exact Hg']).
+    assert (Hl : a < length (actors s)) by (eapply nth_error_lt; exact Hga).
+    set (s0 := set_actor s a (busy xa)) in *.
+    assert (Hg0 : get s0 a = Some (busy xa)) by (apply get_set_same; exact Hl).
+    pose proof (I _ _ Hga) as (L1 & L2 & L3 & L4 & L5).
+    destruct (dispatch_life s0 a (busy xa) e Hg0 L1) as (y & Hy & Hz & Hch & Hpd & Hst & Hu & Hlf).
+    destruct (dispatch_effect s0 a (busy xa) e Hg0) as (y2 & _ & Ha & _).
+    destruct (dispatch s0 a (busy xa) e) as [s1 ins]. cbn [fst snd] in *.
+    rewrite (set_pend_TA _ _ _ _ Hy) in Hg'.
+    destruct (Nat.eq_dec a b) as [->|Hne].
+    + rewrite (get_set_same' _ _ _ _ Hy) in Hg'. inversion Hg'; subst x'. clear Hg'.
+      rewrite Hg in Hga. inversion Hga; subst xa.
+      unfold linv, life_ok. cbn [upd_pend a_state a_zombie a_children a_pend busy set_mb] in *. rewrite Hu, Hz, Hch.
+      assert (Hk : a_state y = Killed -> a_state x = Killed) by (destruct Hst as [->|[_ ->]]; [auto|discriminate]).
+      repeat split; auto; try lia; try discriminate.
+      * intros Hzo. specialize (L1 Hzo). destruct Hst as [->|[E _]]; [exact L1|congruence].
+      * destruct Hlf as [->|[[p ->]|[w ->]]]; auto.
+    + rewrite get_set_other in Hg' by exact Hne.
+      assert (E : get s1 b = get s b).
+      { unfold get. rewrite Ha. unfold s0. cbn [set_actor actors]. rewrite upd_upd. apply nth_upd_neq. exact Hne. }
+      rewrite E, Hg in Hg'. inversion Hg'; subst. apply (I _ _ Hg).
+  - (* MPush *)
+    destruct (pend_of s t) as [|i rest] eqn:Hp; [eapply LI_softT; [exact I|apply softT_refl|exact Hg|exact Hg']|].
+    destruct i; try (eapply LI_softT; [exact I|apply softT_same; reflexivity|exact Hg|exact Hg']).
+    + rewrite deliver_eq in Hg'. eapply (linv_thread_plain s _ t b x x' _ rest [] W I (softT_push_mb s _ _) Hp); eauto.
+    + eapply (linv_thread_plain s _ t b x x' _ rest [] W I (softT_push_mb s _ _) Hp); eauto.
+    + destruct (nth_error tos c) as [r|]; [|eapply LI_softT; [exact I|apply softT_same; reflexivity|exact Hg|exact Hg']].
+      pose proof (softT_resolve s r) as Hr. destruct (resolve s r) as [mb s1]. cbn [snd] in Hr. rewrite deliver_eq in Hg'.
+      match type of Hg' with context[set_pend ?s2 t _] => assert (Hs2 : softT s s2) by (eapply softT_trans; [exact Hr|apply softT_push_mb]) end.
+      destruct (firstn c tos ++ skipn (S c) tos) as [|r0 tl0].
+      * eapply (linv_thread_plain s _ t b x x' _ rest [IEnqDone] W I Hs2 Hp); eauto.
+      * eapply (linv_thread_plain s _ t b x x' _ rest [IEnqDone; IEnqAny sys (r0 :: tl0) sender m] W I Hs2 Hp); eauto.
+    + destruct (nth_error remaining c) as [r|]; [|eapply LI_softT; [exact I|apply softT_same; reflexivity|exact Hg|exact Hg']].
+      pose proof (softT_resolve s r) as Hr. destruct (resolve s r) as [mb s1]. cbn [snd] in Hr. rewrite deliver_eq in Hg'.
+      match type of Hg' with context[set_pend ?s2 t (IEnqDone :: ?i2 :: rest)] =>
+        assert (Hs2 : softT s s2) by (eapply softT_trans; [exact Hr|apply softT_push_mb]);
+        eapply (linv_thread_plain s _ t b x x' _ rest [IEnqDone; i2] W I Hs2 Hp); eauto end.
+  - (* MEnqDone *)
+    destruct (pend_of s t) as [|i rest] eqn:Hp; [eapply LI_softT; [exact I|apply softT_refl|exact Hg|exact Hg']|].
+    destruct i; try (eapply LI_softT; [exact I|apply softT_same; reflexivity|exact Hg|exact Hg']).
+    eapply (linv_thread_plain s s t b x x' _ rest [] W I (softT_refl s) Hp); eauto.
+  - (* MPauseSt *)
+    destruct (pend_of s t) as [|i rest] eqn:Hp; [eapply LI_softT; [exact I|apply softT_refl|exact Hg|exact Hg']|].
+    destruct i; try (eapply LI_softT; [exact I|apply softT_same; reflexivity|exact Hg|exact Hg']).
+    match type of Hg' with context[set_pend ?s1 t rest] =>
+      assert (Hs1 : softT s s1) by (apply softT_with_actor; intros; repeat split);
+      eapply (linv_thread_plain s s1 t b x x' _ rest [] W I Hs1 Hp); eauto end.
+  - (* MResume1 *)
+    destruct (pend_of s t) as [|i rest] eqn:Hp; [eapply LI_softT; [exact I|apply softT_refl|exact Hg|exact Hg']|].
+    destruct i; try (eapply LI_softT; [exact I|apply softT_same; reflexivity|exact Hg|exact Hg']).
+    destruct (get s (self_of t)) as [xs|] eqn:Hgs; [|eapply LI_softT; [exact I|apply softT_same; reflexivity|exact Hg|exact Hg']].
+    destruct (a_paused xs).
+    + match type of Hg' with context[set_pend ?s1 t (IResume2 :: rest)] =>
+        assert (Hs1 : softT s s1) by (apply softT_set_mb; exact Hgs);
+        eapply (linv_thread_plain s s1 t b x x' _ rest [IResume2] W I Hs1 Hp); eauto end.
+    + eapply (linv_thread_plain s s t b x x' _ rest [] W I (softT_refl s) Hp); eauto.
+  - (* MResume2 *)
+    destruct (pend_of s t) as [|i rest] eqn:Hp; [eapply LI_softT; [exact I|apply softT_refl|exact Hg|exact Hg']|].
+    destruct i; try (eapply LI_softT; [exact I|apply softT_same; reflexivity|exact Hg|exact Hg']).
+    eapply (linv_thread_plain s s t b x x' _ rest [] W I (softT_refl s) Hp); eauto.
+  - (* MAtomic *)
+    destruct (pend_of s t) as [|i rest] eqn:Hp; [assert (x' = x) by congruence; subst; apply (I _ _ Hg)|].
+    assert (Hast : get (astep s t i rest) b = Some x' -> linv x').
+    { intros H. destruct (Nat.eq_dec b (self_of t)) as [->|Hne].
+      - destruct t as [a|j]; cbn [self_of] in *.
+        + destruct (pend_of_TA_cons _ _ _ _ Hp) as (x0 & Hg0 & Hpx). rewrite Hg in Hg0. inversion Hg0; subst x0.
+          destruct (linv_astep_TA s a x i rest Hg Hpx (I _ _ Hg)) as (x'' & Hx'' & Hl). congruence.
+        + destruct (pend_of_TX_cons _ _ _ _ Hp) as (ex & Hn & Hpx).
+          destruct W as [_ HX]. pose proof (Forall_nth _ _ _ _ HX Hn) as Hok. cbv beta in Hok. rewrite Hpx in Hok. cbn [forallb] in Hok.
+          apply andb_true_iff in Hok. destruct Hok as [Hi _]. apply ext_instr_plain in Hi.
+          unfold astep in H. set (s0 := set_pend s (TX j) rest) in *.
+          assert (Hg0 : get s0 (self_of (TX j)) = Some x) by (unfold get, s0; rewrite set_pend_TX_actors; exact Hg).
+          destruct (exec1_plain_lc s0 (TX j) (held_of s0 (TX j)) i x Hg0 Hi) as (y & Hy & Hs & Hz & Hc).
+          destruct (exec1_actors s0 (TX j) (held_of s0 (TX j)) i x Hg0) as (y2 & news & Hy2 & _ & Ha).
+          destruct (exec1 s0 (TX j) (held_of s0 (TX j)) i) as [s1 front]. cbn [fst snd self_of] in *.
+          assert (E : get (set_pend s1 (TX j) (front ++ pend_of s1 (TX j))) 0 = get s1 0) by (unfold get; rewrite set_pend_TX_actors; reflexivity).
+          rewrite E, Hy in H. inversion H; subst x'.
+          assert (Hy2' : y2 = y).
+          { unfold get in Hy. rewrite Ha in Hy. rewrite nth_error_app1 in Hy by (rewrite upd_length; eapply nth_error_lt; exact Hg0).
+            rewrite nth_upd_eq in Hy by (eapply nth_error_lt; exact Hg0). congruence. }
+          subst y2. eapply linv_lc; [exact Hs|exact Hz|exact Hc|exact (lu_pend _ _ _ Hy2)|apply (I _ _ Hg)].
+      - destruct (foreign_astep s t i rest b x Hg Hne) as (y & Hy & Hls). assert (x' = y) by congruence; subst.
+        eapply linv_lsame; [exact Hls|apply (I _ _ Hg)]. }
+    destruct i; cbn [yielding] in Hg'; try (assert (x' = x) by congruence; subst; apply (I _ _ Hg)); try (apply Hast; exact Hg').
+    + eapply (linv_thread_plain s _ t b x x' _ rest [IEnqR sys (fst (resolve s to)) sender m] W I (softT_resolve s to) Hp); eauto.
+    + destruct remaining; [apply Hast; exact Hg'|assert (x' = x) by congruence; subst; apply (I _ _ Hg)].
+Qed.
+
+Lemma LI_init scs : LI (init_with scs).
+Proof.
+  intros a x Hg. unfold get in Hg. unfold init_with in Hg.
+  assert (H : forall scs s i, actors (set_exts s i scs) = actors s).
+  { clear. induction scs as [|sc r IH]; intros s i; cbn [set_exts]; [reflexivity|]. rewrite IH. apply set_pend_TX_actors. }
+  rewrite H in Hg. cbn in Hg. destruct a as [|a]; cbn in Hg; [inversion Hg; subst|destruct a; discriminate].
+  apply linv_new. do 4 eexists. reflexivity.
+Qed.
+
+Theorem linv_reachable s a x : reachable s -> get s a = Some x -> linv x.
+Proof.
+  intros Hr. revert a x. change (LI s). revert s Hr.
+  apply (micro_invariant_with wf LI); [apply wf_init|intros; apply wf_mstep; assumption|apply LI_init|intros; apply LI_mstep; assumption].
+Qed.
+
+(** * a classification of micro-steps *)
+(** a cache stays, or is filled from the registry *)
+Definition crel (s : state) (x y : actor) : Prop :=
+  a_cache y = a_cache x \/ (a_cache x = None /\ exists z, a_cache y = Some z /\ alookup (reg s) (a_path x) = Some z).
+Definition quiet (s s' : state) : Prop :=
+  reg s' = reg s /\ exts s' = exts s /\ length (actors s') = length (actors s) /\ softT s s' /\
+  (forall b x x', get s b = Some x -> get s' b = Some x' -> crel s x x').
+Lemma quiet_refl s : quiet s s.
+Proof. split; [reflexivity|split; [reflexivity|split; [reflexivity|split; [apply softT_refl|]]]]. intros b x x' H1 H2. left. congruence. Qed.
+Lemma quiet_same s s' : actors s' = actors s -> reg s' = reg s -> exts s' = exts s -> quiet s s'.
+Proof.
+  intros Ha Hr He. split; [exact Hr|split; [exact He|split; [rewrite Ha; reflexivity|split; [apply softT_same; exact Ha|]]]].
+  intros b x x' H1 H2. left. unfold get in *. rewrite Ha in H2. congruence.
+Qed.
+Lemma quiet_trans a b c : quiet a b -> quiet b c -> quiet a c.
+Proof.
+  intros (R1 & E1 & L1 & S1 & C1) (R2 & E2 & L2 & S2 & C2).
+  split; [congruence|split; [congruence|split; [congruence|split; [eapply softT_trans; eauto|]]]].
+  intros i x z Hx Hz. destruct (softT_get _ _ _ _ S1 Hx) as (y & Hy & Hxy).
+  specialize (C1 i x y Hx Hy). specialize (C2 i y z Hy Hz). destruct Hxy as (_ & _ & _ & _ & Hp & _).
+  destruct C1 as [E|(N & w & Ew & Lw)].
+  - destruct C2 as [E'|(N' & w & Ew & Lw)]; [left; congruence|right]. split; [congruence|]. exists w. split; [exact Ew|]. rewrite <- R1, <- Hp. exact Lw.
+  - destruct C2 as [E'|(N' & _)]; [right; split; [exact N|exists w; split; [congruence|exact Lw]]|congruence].
+Qed.
+Lemma quiet_set_actor s a x y : get s a = Some x -> soft x y -> a_cache y = a_cache x -> quiet s (set_actor s a y).
+Proof.
+  intros Hg Hs Hc. split; [reflexivity|split; [reflexivity|split; [cbn; apply upd_length|split; [eapply softT_set_actor; eauto|]]]].
+  intros b xb xb' H1 H2. left. destruct (Nat.eq_dec a b) as [<-|Hne].
+  - rewrite (get_set_same' _ _ _ _ Hg) in H2. congruence.
+  - rewrite get_set_other in H2 by exact Hne. congruence.
+Qed.
+Lemma quiet_set_mb s a x sq uq pa co cu : get s a = Some x -> quiet s (set_actor s a (set_mb x sq uq pa co cu)).
+Proof. intros Hg. eapply quiet_set_actor; [exact Hg|repeat split|reflexivity]. Qed.
+Lemma quiet_with_actor s a f : (forall x, soft x (f x) /\ a_cache (f x) = a_cache x) -> quiet s (with_actor s a f).
+Proof.
+  intros H. unfold with_actor. destruct (get s a) as [x|] eqn:E; [|apply quiet_same; reflexivity].
+  eapply quiet_set_actor; [exact E|apply H|apply H].
+Qed.
+Lemma quiet_push_mb s a e : quiet s (push_mb s a e).
+Proof. unfold push_mb. apply quiet_with_actor. intros x. split; [repeat split|reflexivity]. Qed.
+Lemma quiet_resolve s r : quiet s (snd (resolve s r)).
+Proof.
+  destruct (resolve_shape s r) as [H|[H|(a & x & y & _ & Hg & Hn & Hlk & H & _)]]; rewrite H;
+    [apply quiet_refl|apply quiet_same; reflexivity|].
+  split; [reflexivity|split; [reflexivity|split; [cbn; apply upd_length|split; [eapply softT_set_actor; [exact Hg|repeat split]|]]]].
+  intros b xb xb' H1 H2. destruct (Nat.eq_dec a b) as [<-|Hne].
+  - rewrite (get_set_same' _ _ _ _ Hg) in H2. inversion H2; subst. rewrite Hg in H1. inversion H1; subst.
+    right. split; [exact Hn|]. exists y. split; [reflexivity|exact Hlk].
+  - rewrite get_set_other in H2 by exact Hne. left. congruence.
+Qed.
+
+Lemma mstep_cases s m :
+  quiet s (mstep s m) \/
+  (exists t i rest pre s1, pend_of s t = i :: rest /\ plain i = true /\ lf pre = [] /\ uzc pre = 0 /\ quiet s s1 /\
+                            mself m = self_of t /\ mstep s m = set_pend s1 t (pre ++ rest)) \/
+  (exists a x e, m = MHandle a /\ get s a = Some x /\ a_cons x = CH e) \/
+  (exists t i rest, m = MAtomic t /\ pend_of s t = i :: rest /\ yielding i = false /\ is_enq i = false /\
+                    mstep s m = astep s t i rest).
+Proof.
+  assert (Hplain : forall t i rest pre s1, pend_of s t = i :: rest -> plain i = true -> lf pre = [] -> uzc pre = 0 -> quiet s s1 ->
+            mself m = self_of t -> mstep s m = set_pend s1 t (pre ++ rest) ->
+            quiet s (mstep s m) \/
+            (exists t i rest pre s1, pend_of s t = i :: rest /\ plain i = true /\ lf pre = [] /\ uzc pre = 0 /\ quiet s s1 /\
+                            mself m = self_of t /\ mstep s m = set_pend s1 t (pre ++ rest)) \/
+            (exists a x e, m = MHandle a /\ get s a = Some x /\ a_cons x = CH e) \/
+            (exists t i rest, m = MAtomic t /\ pend_of s t = i :: rest /\ yielding i = false /\ is_enq i = false /\
+                    mstep s m = astep s t i rest)).
+  { intros t i rest pre s1 H1 H2 H3 H4 H5 H6 H7. right; left. exists t, i, rest, pre, s1. auto 10. }
+  destruct m; cbn [mstep step mself] in *.
+  - left. destruct (get s a) as [x|] eqn:Hg; [|apply quiet_same; reflexivity].
+    destruct (a_cons x), (a_sq x); try (apply quiet_same; reflexivity); apply quiet_set_mb; exact Hg.
+  - left. destruct (get s a) as [x|] eqn:Hg; [|apply quiet_same; reflexivity].
+    destruct (a_cons x); try (apply quiet_same; reflexivity); apply quiet_set_mb; exact Hg.
+  - left. destruct (get s a) as [x|] eqn:Hg; [|apply quiet_same; reflexivity].
+    destruct (a_cons x), (a_uq x); try (apply quiet_same; reflexivity); apply quiet_set_mb; exact Hg.
+  - destruct (get s a) as [x|] eqn:Hg; [|left; apply quiet_same; reflexivity].
+    destruct (a_cons x) eqn:Hc; try (left; apply quiet_same; reflexivity).
+    right; right; left. exists a, x, e. auto.
+  - destruct (pend_of s t) as [|i rest] eqn:Hp; [left; apply quiet_same; reflexivity|].
+    destruct i; try (left; apply quiet_same; reflexivity).
+    + rewrite deliver_eq in *. apply (Hplain t _ rest [] _ Hp eq_refl eq_refl eq_refl (quiet_push_mb s _ _) eq_refl eq_refl).
+    + apply (Hplain t _ rest [] _ Hp eq_refl eq_refl eq_refl (quiet_push_mb s _ _) eq_refl eq_refl).
+    + destruct (nth_error tos c) as [r|]; [|left; apply quiet_same; reflexivity].
+      pose proof (quiet_resolve s r) as Hr. destruct (resolve s r) as [mb s1]. cbn [snd] in Hr. rewrite deliver_eq in *.
+      assert (Hq : quiet s (push_mb s1 (fst (landing mb {| e_sys := sys; e_sender := sender; e_msg := m |})) (snd (landing mb {| e_sys := sys; e_sender := sender; e_msg := m |}))))
+        by (eapply quiet_trans; [exact Hr|apply quiet_push_mb]).
+      destruct (firstn c tos ++ skipn (S c) tos) as [|r0 tl0].
+      * apply (Hplain t _ rest [IEnqDone] _ Hp eq_refl eq_refl eq_refl Hq eq_refl eq_refl).
+      * apply (Hplain t _ rest [IEnqDone; IEnqAny sys (r0 :: tl0) sender m] _ Hp eq_refl eq_refl eq_refl Hq eq_refl eq_refl).
+    + destruct (nth_error remaining c) as [r|]; [|left; apply quiet_same; reflexivity].
+      pose proof (quiet_resolve s r) as Hr. destruct (resolve s r) as [mb s1]. cbn [snd] in Hr. rewrite deliver_eq in *.
+      match goal with |- context[set_pend ?s2 t (IEnqDone :: ?i2 :: rest)] =>
+        assert (Hq : quiet s s2) by (eapply quiet_trans; [exact Hr|apply quiet_push_mb]);
+        apply (Hplain t _ rest [IEnqDone; i2] _ Hp eq_refl eq_refl eq_refl Hq eq_refl eq_refl) end.
+  - destruct (pend_of s t) as [|i rest] eqn:Hp; [left; apply quiet_same; reflexivity|].
+    destruct i; try (left; apply quiet_same; reflexivity).
+    apply (Hplain t _ rest [] s Hp eq_refl eq_refl eq_refl (quiet_refl s) eq_refl eq_refl).
+  - destruct (pend_of s t) as [|i rest] eqn:Hp; [left; apply quiet_same; reflexivity|].
+    destruct i; try (left; apply quiet_same; reflexivity).
+    match goal with |- context[set_pend ?s1 t rest] =>
+      assert (Hq : quiet s s1) by (apply quiet_with_actor; intros; split; [repeat split|reflexivity]);
+      apply (Hplain t _ rest [] s1 Hp eq_refl eq_refl eq_refl Hq eq_refl eq_refl) end.
+  - destruct (pend_of s t) as [|i rest] eqn:Hp; [left; apply quiet_same; reflexivity|].
+    destruct i; try (left; apply quiet_same; reflexivity).
+    destruct (get s (self_of t)) as [x|] eqn:Hg; [|left; apply quiet_same; reflexivity].
+    destruct (a_paused x).
+    + match goal with |- context[set_pend ?s1 t (IResume2 :: rest)] =>
+        assert (Hq : quiet s s1) by (apply quiet_set_mb; exact Hg);
+        apply (Hplain t _ rest [IResume2] s1 Hp eq_refl eq_refl eq_refl Hq eq_refl eq_refl) end.
+    + apply (Hplain t _ rest [] s Hp eq_refl eq_refl eq_refl (quiet_refl s) eq_refl eq_refl).
+  - destruct (pend_of s t) as [|i rest] eqn:Hp; [left; apply quiet_same; reflexivity|].
+    destruct i; try (left; apply quiet_same; reflexivity).
+    apply (Hplain t _ rest [] s Hp eq_refl eq_refl eq_refl (quiet_refl s) eq_refl eq_refl).
+  - destruct (pend_of s t) as [|i rest] eqn:Hp; [left; apply quiet_refl|].
+    destruct (is_enq i) eqn:Hq.
+    + destruct i; try discriminate Hq.
+      apply (Hplain t _ rest [IEnqR sys (fst (resolve s to)) sender m] _ Hp eq_refl eq_refl eq_refl (quiet_resolve s to) eq_refl eq_refl).
+    + destruct (yielding i) eqn:Hy.
+      * left. destruct i; try discriminate Hy; try apply quiet_refl; try (destruct remaining; [discriminate Hy|apply quiet_refl]).
+      * right; right; right. exists t, i, rest. split; [reflexivity|]. split; [exact Hp|]. split; [exact Hy|]. split; [exact Hq|].
+        destruct i; try discriminate Hq; try discriminate Hy; try reflexivity; try (destruct remaining; [reflexivity|discriminate Hy]).
 Qed.
